@@ -40,6 +40,10 @@ def c05(proj, rep, tier):
     rep.floor('CS1 (function, argument pair) groups with several call sites', n, 20)
     nfun, nmemo = kdefects.mc1(proj, rep, ENTANGLE)
     rep.floor('MC1 functions of the entangle modules scanned for module-level memos', nfun, 60)
+    n = round3b.dom1(proj, rep, round3b.DOM1_TABLE_C05)
+    rep.floor('DOM1 effective admissible lower bounds (symmetric-extension entry points)', n, 4)
+    n = round3b.rs1(proj, rep, ['numqi.entangle'] if tier == 'quick' else None)
+    rep.floor('RS1 matricisations whose axes come from a loop variable', n, 1)
 
 
 def c06(proj, rep, tier):
@@ -67,6 +71,13 @@ def c06(proj, rep, tier):
     rep.floor('SDP1 functions that answer by solving a convex program', n, 12)
     n = round3b.df1(proj, rep)
     rep.floor('DF1 pinned public defaults', n, 1)
+    n = round3b.dom1(proj, rep, round3b.DOM1_TABLE_C05)
+    rep.floor('DOM1 effective admissible lower bounds (symmetric-extension entry points)', n, 4)
+    n = round3b.f9(proj, rep, ['numqi.gellmann', 'numqi.entangle'] if tier == 'quick' else None)
+    rep.floor('F9 square roots scanned for norm-difference cancellation', n, 10)
+    round3b.cc1(proj, rep, ['numqi.entangle'] if tier == 'quick' else None)
+    n = round3b.i2(proj, rep)
+    rep.floor('I2 interpolation-parameter assignments', n, 1)
     rep.assume('threshold exactness, interpolation distance, every beta inequality of the hierarchy and "inner-model states pass '
                'outer tests" are eigenvalue / solver quantities: not decided. Decided: the structural necessary conditions - a genuine '
                'partial transpose for symbolic dims, monotone intersection of intervals, complete constraint sets that only grow.')
@@ -313,6 +324,8 @@ def c16(proj, rep, tier):
     rep.floor('DT3 torch.sqrt normalisers built from arange', n, 1)
     kdefects.kr1(proj, rep, ['numqi.gellmann'] if tier == 'quick' else sorted(proj.modules))
     numeric.f2(proj, rep, ['numqi.gellmann'])
+    n = round3b.f9(proj, rep, ['numqi.gellmann'])
+    rep.floor('F9 square roots in numqi.gellmann scanned for norm-difference cancellation', n, 2)
     nsite, ntyped = gellmann.g2(proj, rep, None)
     rep.floor('G2 synthesis call sites in the package', nsite, 20)
     rep.floor('G2 projected sites typed', ntyped, 10)
